@@ -187,6 +187,9 @@ def yadrenko(ctx, rule="R02.3"):
 
 
 def run(ctx):
+    from .C03 import gamma_recurrence
+
+    gamma_recurrence(ctx, rule="R02.5")
     dimension_gate(ctx)
     validity_tables(ctx)
     yadrenko(ctx)
